@@ -84,9 +84,24 @@ for d in sorted(glob.glob(V + "/seeded/staging/C*")):
         conf = json.load(open(d + "/confirm_%s.json" % x)) if os.path.exists(d + "/confirm_%s.json" % x) else {}
         first = open(out + "/patch.diff").read()
         files = sorted(set(re.findall(r"^\+\+\+ b/(\S+)", first, re.M)))
-        # one-line description: first sentence mentioning "Change X" in the notes
-        m = re.search(r"(?:^|\n)#+[^\n]*\b%s\b[^\n]*\n(.*?)(?:\n#|\Z)" % x, notes, re.S)
-        what = re.sub(r"\s+", " ", (m.group(1) if m else notes)[:400]).strip()
+        # one-line description: the heading of the notes' section for this change + its first paragraph
+        what = ""
+        lines = notes.splitlines()
+        for i, l in enumerate(lines):
+            if re.match(r"^#+\s*(?:\d+\.\s*)?(?:Change|Seed|Mutation|Regression)?\s*%s\b" % x, l.strip(), re.I) and len(l) > 6:
+                head = re.sub(r"^#+\s*", "", l).strip()
+                para = []
+                for m2 in lines[i + 1:]:
+                    if m2.startswith("#") and para:
+                        break
+                    if m2.strip() and not m2.startswith("#"):
+                        para.append(m2.strip())
+                    elif para:
+                        break
+                what = (head + " - " + " ".join(para))[:420]
+                break
+        if not what:
+            what = re.sub(r"\s+", " ", notes[:300]).strip()
         also = {"C09-D": ["C07", "C03"], "C20-D": ["C01"], "C03-D": ["C01"], "C10-C": ["C07"], "C10-D": ["C04"], "C19-D": ["C12"]}.get(sid, [])
         meta = {"id": sid, "breaks": [pid] + also, "files": files,
                 "origin": ("written by an independent sub-agent that was given only the text of property %s and a scratch worktree of /repo (nothing from /verif)" % pid)
